@@ -540,3 +540,113 @@ M("c15-threadlocal-shared-flag", "C15", "C15.THREAD", (TLOC, "        self.__sto
 M("c20-base-ctor-args-swapped", "C20", "C20.LOAD", (OTM, 'super().__init__("OTelMetrics", config)', 'super().__init__(config, "OTelMetrics")'))
 R("c20-base-ctor-keywords", "C20", (OTM, 'super().__init__("OTelMetrics", config)', 'super().__init__(name="OTelMetrics", config=config)'))
 R("c15-threadlocal-extra-ctor-field", "C15", (TLOC, "        self.__store = threading.local()\n", "        self.__store = threading.local()\n        self.__created_by = threading.get_ident()\n"))
+
+# ------------------------------------------------------------------ round-5 rules
+GSVC = "src/deep/grpc/grpc_service.py"
+POLLF = "src/deep/poll/poll.py"
+CSVC = "src/deep/config/config_service.py"
+RESF = "src/deep/api/resource/__init__.py"
+LOGA = "src/deep/processor/context/log_action.py"
+TCTX = "src/deep/processor/context/trigger_context.py"
+VPROC = "src/deep/processor/variable_processor.py"
+_META_OLD = """        if self._metadata is None:
+            self._metadata = self._build_metadata()
+        return self._metadata
+"""
+M("c09-lock-not-released-on-failure", "C09", "C09.F",
+  (GSVC, "        self._metadata = None\n", "        self._metadata = None\n        self._metadata_lock = __import__('threading').Lock()\n"),
+  (GSVC, _META_OLD, """        if self._metadata is None:
+            self._metadata_lock.acquire()
+            if self._metadata is None:
+                self._metadata = self._build_metadata()
+            self._metadata_lock.release()
+        return self._metadata
+"""))
+R("c09-lock-released-in-finally", "C09",
+  (GSVC, "        self._metadata = None\n", "        self._metadata = None\n        self._metadata_lock = __import__('threading').Lock()\n"),
+  (GSVC, _META_OLD, """        if self._metadata is None:
+            self._metadata_lock.acquire()
+            try:
+                if self._metadata is None:
+                    self._metadata = self._build_metadata()
+            finally:
+                self._metadata_lock.release()
+        return self._metadata
+"""))
+R("c09-lock-with-block", "C09",
+  (GSVC, "        self._metadata = None\n", "        self._metadata = None\n        self._metadata_lock = __import__('threading').Lock()\n"),
+  (GSVC, _META_OLD, """        if self._metadata is None:
+            with self._metadata_lock:
+                if self._metadata is None:
+                    self._metadata = self._build_metadata()
+        return self._metadata
+"""))
+M("c09-job-id-read-outside-lock", "C09", "C09.E", (TASK, "            next_id = self._job_id\n        return next_id\n", "        return self._job_id\n"))
+R("c09-job-id-returned-inside-lock", "C09", (TASK, "            next_id = self._job_id\n        return next_id\n", "            return self._job_id\n"))
+M("c12-poll-guard-lock-leaks", "C12", "C12.LOOP",
+  (POLLF, "        self.timer = None\n\n    def start(self):", "        self.timer = None\n        self._poll_lock = __import__('threading').Lock()\n\n    def start(self):"),
+  (POLLF, "        stub = PollConfigStub(self.grpc.channel)\n", "        if not self._poll_lock.acquire(blocking=False):\n            return\n        stub = PollConfigStub(self.grpc.channel)\n"),
+  (POLLF, "                                                      convert_response(response.response))\n",
+   "                                                      convert_response(response.response))\n        self._poll_lock.release()\n"))
+M("c10-per-hit-state-on-module-object", "C10", "C10.SCOPE",
+  (LOGA, "class LogActionContext(ActionContext):", "_LAST = {}\n\n\nclass LogActionContext(ActionContext):"),
+  (LOGA, "        ctx_self = self\n", "        ctx_self = self\n        _LAST['ctx'] = self\n"))
+R("c10-module-constant-read-only", "C10",
+  (LOGA, "class LogActionContext(ActionContext):", "_PREFIX = {'text': '[deep] %s'}\n\n\nclass LogActionContext(ActionContext):"),
+  (LOGA, '        log_msg = "[deep] %s" % FormatExtractor()', "        log_msg = _PREFIX['text'] % FormatExtractor()"))
+M("c10-second-eval-in-merged-scope", "C10", "C10.SCOPE",
+  (TCTX, "            return True, eval(expression, getattr(self.__frame, 'f_globals', None), self.__frame.f_locals)\n",
+   "            if '(' not in expression:\n                return True, eval(expression, getattr(self.__frame, 'f_globals', None), self.__frame.f_locals)\n"
+   "            scope = dict(self.__frame.f_locals)\n            scope.update(self.__frame.f_globals)\n            return True, eval(expression, scope)\n"))
+M("c14-hooks-saved-at-construction", "C14", "C14.C",
+  (TH, "        self.__old_thread_trace = None\n        self.__old_sys_trace = None\n",
+   "        self.__old_sys_trace = sys.gettrace()\n        self.__old_thread_trace = threading.gettrace() if hasattr(threading, 'gettrace') else threading._trace_hook\n"),
+  (TH, "        self.__old_sys_trace = sys.gettrace()\n        # gettrace was added in 3.10, so use it if we can, else try to get from property\n"
+       "        # noinspection PyUnresolvedReferences,PyProtectedMember\n"
+       "        self.__old_thread_trace = threading.gettrace() if hasattr(threading, 'gettrace') else threading._trace_hook\n        self.__installed = True\n",
+   "        self.__installed = True\n"))
+M("c14-poll-thread-starts-a-timer", "C14", "C14.E",
+  (POLLF, "from deep.utils import time_ns, RepeatedTimer\n", "import threading\nfrom deep.utils import time_ns, RepeatedTimer\n"),
+  (POLLF, "                                                      convert_response(response.response))\n",
+   "                                                      convert_response(response.response))\n"
+   "            follow = threading.Timer(2, self.poll)\n            follow.daemon = True\n            follow.start()\n"))
+M("c15-empty-config-exit-before-callbacks", "C15", "C15.ONCE",
+  (TH, "        trigger_context = TriggerContext(self._config, self._push_service, frame, event, arg)\n",
+   "        trigger_context = TriggerContext(self._config, self._push_service, frame, event, arg)\n        if len(self._tp_config) == 0:\n            return None\n"))
+M("c18-resource-store-bounded", "C18", "C18.MERGE", (RESF, "BoundedAttributes(attributes=attributes)", "BoundedAttributes(max_length=128, attributes=attributes)"))
+R("c18-resource-store-explicit-none", "C18", (RESF, "BoundedAttributes(attributes=attributes)", "BoundedAttributes(max_length=None, attributes=attributes)"))
+M("c18-poll-resource-remembered", "C18", "C18.CHAIN",
+  (POLLF, "        self.timer = None\n\n    def start(self):", "        self.timer = None\n        self._resource = None\n\n    def start(self):"),
+  (POLLF, "        stub = PollConfigStub(self.grpc.channel)\n", "        stub = PollConfigStub(self.grpc.channel)\n        if self._resource is None:\n            self._resource = convert_resource(self.config.resource)\n"),
+  (POLLF, "resource=convert_resource(self.config.resource))", "resource=self._resource)"))
+R("c18-poll-resource-local-variable", "C18",
+  (POLLF, "        stub = PollConfigStub(self.grpc.channel)\n", "        stub = PollConfigStub(self.grpc.channel)\n        client = convert_resource(self.config.resource)\n"),
+  (POLLF, "resource=convert_resource(self.config.resource))", "resource=client)"))
+_PG_OLD = """        for plugin in self._plugins:
+            if isinstance(plugin, plugin_type):
+                yield plugin
+"""
+_PG_NEW = """        matching = self._by_type.get(plugin_type)
+        if matching is None:
+            matching = [plugin for plugin in self._plugins if isinstance(plugin, plugin_type)]
+            self._by_type[plugin_type] = matching
+        yield from matching
+"""
+M("c20-plugins-by-type-memo-not-reset", "C20", "C20.LOAD",
+  (CSVC, "    def __plugin_generator(self, plugin_type)", "    _by_type_unused = None\n\n    def __plugin_generator(self, plugin_type)"),
+  (CSVC, _PG_OLD, "        if not hasattr(self, '_by_type'):\n            self._by_type = {}\n" + _PG_NEW))
+R("c20-plugins-by-type-memo-reset-by-setter", "C20",
+  (CSVC, _PG_OLD, "        if not hasattr(self, '_by_type'):\n            self._by_type = {}\n" + _PG_NEW),
+  (CSVC, '        """Set the active deep client plugins."""\n        self._plugins = plugins\n',
+   '        """Set the active deep client plugins."""\n        self._plugins = plugins\n        self._by_type = {}\n'))
+M("c13-api-writes-into-callers-args", "C13", "C13.ARGS",
+  (DEEP, "        tp_id = self.config.tracepoints.add_custom(path, line, args, watches, metrics)\n",
+   "        args['registered_by'] = 'api'\n        tp_id = self.config.tracepoints.add_custom(path, line, args, watches, metrics)\n"))
+R("c13-api-writes-into-a-copy", "C13",
+  (DEEP, "        if args is None:\n            args = {}\n        tp_id = self.config.tracepoints.add_custom",
+   "        args = dict(args or {})\n        args['registered_by'] = 'api'\n        tp_id = self.config.tracepoints.add_custom"))
+M("c05-program-str-subclass-cut-by-itself", "C05", "C05.STR",
+  (VPROC, "    try:\n        return str(value)\n    except Exception:\n        return f'{type(value)}@{id(value)}'",
+   "    if isinstance(value, str):\n        return value\n    try:\n        return str(value)\n    except Exception:\n        return f'{type(value)}@{id(value)}'"))
+M("c01-locals-mapping-read-for-every-event", "C01", "C01.R3",
+  (TCTX, "        self.__frame = frame\n", "        self.__frame = frame\n        self.__locals = frame.f_locals\n"))
